@@ -14,16 +14,20 @@ CASE_TABLE = {
     "\u212b": ("\u212b", "\u00e5"), "\u00e5": ("\u00c5", "\u00e5"), "\u00c5": ("\u00c5", "\u00e5"),
     "\u00e9": ("\u00c9", "\u00e9"), "\u00c9": ("\u00c9", "\u00e9"),
     "\u2126": ("\u2126", "\u03c9"), "\u03c9": ("\u03a9", "\u03c9"), "\u03a9": ("\u03a9", "\u03c9"),
+    "\u1e9e": ("\u1e9e", "\u00df"),
 }
-SIGNS = "\u212a\u212b\u2126"
+# the two letters of the alphabet whose upper case is two characters long (`Str.multiUpper`); under re.IGNORECASE they fold to themselves
+MULTI_UPPER = {"\u00df": "SS", "\ufb01": "FI"}
+SIGNS = "\u212a\u212b\u2126" + "\u00df\u1e9e\ufb01"      # where str.upper() and re.IGNORECASE part (CaseFold: not in the regular alphabet)
 # names for ignorecase runs: ASCII names, their relatives over the table, and names differing only by such letters
 IC_POOL = ASCII_POOL + ["k", "K", "\u212a", "s", "S", "\u017f", "i", "I", "\u0131", "\u00b5", "\u03bc", "\u039c", "\u212b", "\u00e5", "\u00c5",
                         "\u00e9", "\u00c9", "\u2126", "\u03c9", "\u03a9", "ok", "O\u212a", "OK", "a\u017f", "as", "AS", "\u00b5m", "\u03bcm",
-                        "\u212bb", "\u00e5b", "\u2126.", "\u03c9."]
+                        "\u212bb", "\u00e5b", "\u2126.", "\u03c9.",
+                        "\u00df", "ss", "SS", "\u1e9e", "stra\u00dfe", "strasse", "STRASSE", "\ufb01", "fi", "FI", "\ufb01le", "file"]
 
 
 def in_alphabet(s):
-    return all(ord(ch) < 128 or ch in CASE_TABLE for ch in s)
+    return all(ord(ch) < 128 or ch in CASE_TABLE or ch in MULTI_UPPER for ch in s)
 
 
 def re_key(s):
@@ -32,7 +36,8 @@ def re_key(s):
 
 
 def regular(s):
-    """no KELVIN/ANGSTROM/OHM sign: str.upper() and re.IGNORECASE agree on such strings (CaseFold.caseRegular_regularAlphabet)"""
+    """no KELVIN/ANGSTROM/OHM sign, no sharp s, no fi ligature: str.upper() and re.IGNORECASE agree on such strings
+    (CaseFold.caseRegular_regularAlphabet)"""
     return in_alphabet(s) and not any(ch in SIGNS for ch in s)
 
 
@@ -148,6 +153,11 @@ def _recase(rng, nm):
     table another member of the character's class under str.upper() or re.IGNORECASE (k / K / KELVIN SIGN ...)"""
     if not in_alphabet(nm):
         return nm
+    if rng.random() < 0.3:
+        # spellings that are equal under str.upper() only: sharp s / ss, fi ligature / fi
+        for a, b in (("\u00df", "ss"), ("ss", "\u00df"), ("\u00df", "SS"), ("SS", "\u00df"), ("\ufb01", "fi"), ("fi", "\ufb01"), ("FI", "\ufb01")):
+            if a in nm and rng.random() < 0.5:
+                return nm.replace(a, b)
     if all(ord(ch) < 128 for ch in nm) and rng.random() < 0.7:
         return rng.choice([nm.swapcase(), nm.upper(), nm.lower(), nm.capitalize()])
     return "".join(rng.choice(_classmates(ch)) if ch.isalpha() and rng.random() < 0.7 else ch for ch in nm)
@@ -196,7 +206,7 @@ def casetable_case():
     """every character of the alphabet against every character, through the library: a flat tree whose children are named by the single
     characters; relaxed `glob(root, x, ignorecase)` returns the children matching x under re.IGNORECASE, `get` the first child equal
     under str.upper()."""
-    chars = list("kKsSiIaAzZ09_") + sorted(CASE_TABLE)
+    chars = list("kKsSiIfFaAzZ09_") + sorted(CASE_TABLE) + sorted(MULTI_UPPER) + ["ss", "SS", "sS", "fi", "FI", "Fi", "s\u017f"]
     t = [0, [[i + 1, []] for i in range(len(chars))]]
     names = [[0, "root"]] + [[i + 1, ch] for i, ch in enumerate(chars)]
     qs = []
